@@ -12,13 +12,13 @@ from checks import synccheck, tracecheck
 
 META = dict(
     text='TLC exhausts the thread lifecycle protocol (Lifecycle.tla: a creator and 3 workers on 2 vCPUs, joinable and detached, self-migration, migration of READY threads, standby drain, idler work stealing from run queue and standby queue; the context switch split into run-queue step, context save and deferred stack release / migration) for OneRunner, RunsExactlyOnce, JoinExact, StackSafe, OnePlace and Population without stealing and with a stealer that respects unsaved contexts; the pre-repair scan (which could take a READY thread whose context was not saved yet, F9) is kept as a witness that must violate OneRunner. StealLocks.tla checks the lock structure of work stealing (own run-queue lock, vCPU-list lock, victim standby lock, asymmetric run-queue lock from the background side) for deadlock freedom, run-queue exclusion and termination; the pre-repair structure is kept as a witness. Recorded executions of the real runtime (2-7 threads per execution created joinable / detached / stealable / from a thread pool on 3 vCPUs with random work-stealing flags, yielding, sleeping, migrating themselves, being migrated, interrupted and joined in random order; default and pooled stack allocator behind a recording allocator) are validated by TLC against the lifecycle contract: one Enter and one Leave per thread, compute segments of a thread never overlap and end on the vCPU they began on, join returns once after Leave with the value, stacks released once and only after Leave (joinable: not before join was called), thread counts back to initial. Directed scenarios with hook data: a vCPU held before the context switch of a yielding stealable thread (steal9), join racing die() (joinrace), stealing from a stand-by queue that holds an interrupted sleeper behind a migrated thread (stealsb: a stolen thread is in no sleep queue).',
-    note='The directed scenario (vCPU held by a guarded hook between leaving the run-queue lock and saving the context while another vCPU steals) reproduces F9 deterministically if the guard is removed. Memory-ordering of the asymmetric run-queue lock is outside the SC specification (see F10 in DESIGN.md).',
+    note='The directed scenario (vCPU held by a guarded hook between leaving the run-queue lock and saving the context while another vCPU steals) reproduces F9 deterministically if the guard is removed. The asymmetric run-queue lock is modelled with store buffers (AsymLockTSO.tla: fenced = as repaired by fix 992afa2 holds, unfenced = witness of F10 violates) and exercised by a litmus on the real class.',
     technique='TLA+ protocol models checked exhaustively by TLC; TLC trace validation of recorded lifecycle executions; hook-gated directed scenario for the recorded finding',
     design='3/C05')
 
-F31_TEXT = ('random lifecycle runs with ACTIVE work stealing (vcpu_init flags with bit 0 on some vCPU, e.g. [1,2,2]) end in SIGSEGV / SIGABRT / a hang '
-            'in about 1 of 13 runs of some seeds on the unchanged library (right after a stealable thread left or a detached stealable thread\'s stack was released); '
-            'not root-caused; runs without work stealing never do')
+F31_TEXT = ('random lifecycle runs with ACTIVE work stealing (vcpu_init flags with bit 0 on some vCPU, e.g. [1,2,2]) rarely die or hang: before the fence of '
+            'fix 992afa2 (F10) 6 of 80 runs of seed 213 crashed; with it 0 of 100 crashed and 1 of 100 hung; the hang is not root-caused; '
+            'runs without work stealing never do')
 F9_TEXT = ('thread_yield() makes the yielding thread READY in the run queue and drops the run-queue lock before its context is '
            'saved; a work-stealing vCPU that scans the queue in that window resumes the thread from its stale context '
            '(thread runs on two vCPUs / crash)')
@@ -46,9 +46,15 @@ def run(ctx):
     if not os.environ.get('VERIF_SKIP_MC'):
         if not synccheck.mc_all(ctx, [('AsymLockTSO', 'MC_AsymLockTSO_sc.cfg', 300)]):
             return ctx.finish()
-        r = ctx.mc('AsymLockTSO', 'MC_AsymLockTSO_tso.cfg', timeout=300, count=False)
+        # the lock as it is now (full fence between the foreground store and load, fix 992afa2) under store buffers ...
+        r = ctx.mc('AsymLockTSO', 'MC_AsymLockTSO_tso_fenced.cfg', timeout=300)
         tso_violated = r['inv_violated'] == ['MutualExclusion']
         ctx.extra['asym_lock_exclusive_under_TSO_model'] = not tso_violated
+        # ... and the lock as it was (no fence) must still produce the counterexample (witness of F10, keeps the model honest)
+        r = ctx.mc('AsymLockTSO', 'MC_AsymLockTSO_tso.cfg', timeout=300, count=False)
+        ctx.extra['unfenced_lock_violates_under_TSO_model'] = r['inv_violated'] == ['MutualExclusion']
+        if r['inv_violated'] != ['MutualExclusion']:
+            raise vtlib.InfraError('AsymLockTSO.tla: the unfenced lock is not detected under TSO (vacuous model)')
     ctx.build_lib()
     ha = ctx.build_harness('h_asym')
     lit = f'{ctx.out}/asym.ndjson'
